@@ -59,14 +59,14 @@ func allSeries(thorough bool) []seriesT {
 		}
 		return []string{"nonstrict"}
 	}
+	// nesting never reaches an <A item, so the mode cannot matter: non-strict only, both tiers
+	// (each of the deep points touches up to 1 GB of goroutine stack)
 	nest := pow10s(1, 6, "4000000")
 	if thorough {
-		nest = pow10s(1, 6, "2000000", "3000000", "4000000")
+		nest = pow10s(1, 6, "2000000", "4000000")
 	}
 	for _, v := range []string{"open", "closed"} {
-		for _, m := range modesFor(false) {
-			ss = append(ss, seriesT{"nesting", v, m, nest, true})
-		}
+		ss = append(ss, seriesT{"nesting", v, "nonstrict", nest, true})
 	}
 	unt := []string{"1000", "10000", "100000", "1000000"}
 	for _, v := range []string{"asciiq", "asciinum", "asciiesc", "jis8", "local", "binary", "boolean", "blockcomment", "linecomment", "bodycomment", "streamcode", "msgname", "sizehintdigits"} {
